@@ -338,4 +338,139 @@ example : triTess [triLR] [triUL, triUL.reverse, triLR.reverse] = [(0, 2, 1/2)] 
 example : ((BSP.node ⟨1, -1, 0⟩ (BSP.node ⟨1, 1, 1⟩ .leaf .leaf) .leaf).cells []).map
       (fun c => clipArea2 c triLL) = [1/2, 0, 1/2] ∧ area2 triLL = 1 := by decide +kernel
 
+/-! ## deepening B: decidable input conditions, any cell order, option / error branches -/
+
+/-- all 1-D conclusions from the single decidable condition `hyp1d` (evaluated by the driver on every
+    1-D case): non-negative, rows / columns of the overlaps sum to the cell lengths, averaged rows and
+    integrated columns sum to one -/
+theorem match1d_of_hyp (ptol : Rat) (a b : List Rat) (h : hyp1d ptol a b = true) :
+    (∀ i c, (cells a)[i]? = some c → rowSum (lineTess ptol (cells a) (cells b)) i = c.2 - c.1) ∧
+    (∀ j d, (cells b)[j]? = some d → colSum (lineTess ptol (cells a) (cells b)) j = d.2 - d.1) ∧
+    (∀ row ∈ match1d ptol .averaged (cells a) (cells b), row.sum = 1) ∧
+    (∀ j, j < (cells b).length → colSumDense (match1d ptol .integrated (cells a) (cells b)) j = 1) := by
+  simp only [hyp1d, Bool.and_eq_true, decide_eq_true_eq] at h
+  obtain ⟨⟨⟨⟨ha, hb⟩, hs⟩, h0⟩, hl⟩ := h
+  exact ⟨fun i c hc => line_tess_rowsum ptol a b ha hb hs h0 hl i c hc,
+    fun j d hd => line_tess_colsum ptol a b ha hb hs h0 hl j d hd,
+    match_avg_rows_one ptol a b ha hb hs h0 hl, match_int_cols_one ptol a b ha hb hs h0 hl⟩
+
+/-- ANY ORDER, rows: the row of a cell `c` of the tessellation `a` sums to its length whatever else the
+    first cell list contains and in whatever order the cells of `b` are numbered (a row of the double loop
+    only depends on its own cell and on the multiset of the other cells). -/
+theorem line_tess_rowsum_anyorder (ptol : Rat) (a b : List Rat) (ha : gapInc ptol a = true)
+    (hb : gapInc ptol b = true) (hs : sepNodes ptol a b = true)
+    (h0 : a.head? = b.head?) (hl : a.getLast? = b.getLast?)
+    (c1 ds : List Cell) (hperm : ds.Perm (cells b)) (i : Nat) (c : Cell) (hc : c1[i]? = some c)
+    (hca : c ∈ cells a) : rowSum (lineTess ptol c1 ds) i = c.2 - c.1 := by
+  have h := rowSum_tessFrom (pairOverlap ptol) c1 ds 0 i c hc
+  rw [Nat.zero_add] at h
+  unfold lineTess
+  rw [h]
+  have c3 := (cells_nodes ptol a ha c hca).2.2.1
+  rw [sumOv_congr (pairOverlap ptol) pairOverlapX c ds (fun d hd => by
+      have hd' : d ∈ cells b := hperm.mem_iff.mp hd
+      exact pairOverlap_eq_X ptol c d (le_of_lt c3) (le_of_lt (cells_nodes ptol b hb d hd').2.2.1)
+        (cells_sep ptol a b ha hb hs c d hca hd')),
+    sumOv_perm pairOverlapX c ds (cells b) hperm]
+  obtain ⟨k, hk⟩ := List.getElem?_of_mem hca
+  have := line_tess_rowsum ptol a b ha hb hs h0 hl k c hk
+  rw [lineTess_eq_X ptol a b ha hb hs] at this
+  have h2 := rowSum_tessFrom pairOverlapX (cells a) (cells b) 0 k c hk
+  rw [Nat.zero_add] at h2
+  rw [← h2, this]
+
+/-- ANY ORDER, columns. -/
+theorem line_tess_colsum_anyorder (ptol : Rat) (a b : List Rat) (ha : gapInc ptol a = true)
+    (hb : gapInc ptol b = true) (hs : sepNodes ptol a b = true)
+    (h0 : a.head? = b.head?) (hl : a.getLast? = b.getLast?)
+    (cs c2 : List Cell) (hperm : cs.Perm (cells a)) (j : Nat) (d : Cell) (hd : c2[j]? = some d)
+    (hdb : d ∈ cells b) : colSum (lineTess ptol cs c2) j = d.2 - d.1 := by
+  unfold lineTess
+  rw [colSum_tessFrom (pairOverlap ptol) cs c2 0 j d hd]
+  have d3 := (cells_nodes ptol b hb d hdb).2.2.1
+  rw [sumOvL_congr (pairOverlap ptol) pairOverlapX d cs (fun c hc => by
+      have hc' : c ∈ cells a := hperm.mem_iff.mp hc
+      exact pairOverlap_eq_X ptol c d (le_of_lt (cells_nodes ptol a ha c hc').2.2.1) (le_of_lt d3)
+        (cells_sep ptol a b ha hb hs c d hc' hdb)),
+    sumOvL_perm pairOverlapX d cs (cells a) hperm]
+  obtain ⟨k, hk⟩ := List.getElem?_of_mem hdb
+  have := line_tess_colsum ptol a b ha hb hs h0 hl k d hk
+  rw [lineTess_eq_X ptol a b ha hb hs] at this
+  have h2 := colSum_tessFrom pairOverlapX (cells a) (cells b) 0 k d hk
+  rw [← h2, this]
+
+/-- `match_1d` with an unknown `scaling` string (no `else` in the code): the matrix holds the overlap
+    lengths, its rows sum to the cell lengths -/
+theorem match1d_other_rows (ptol : Rat) (a b : List Rat) (ha : gapInc ptol a = true)
+    (hb : gapInc ptol b = true) (hs : sepNodes ptol a b = true)
+    (h0 : a.head? = b.head?) (hl : a.getLast? = b.getLast?) :
+    ∀ row ∈ match1d ptol .other (cells a) (cells b), ∃ c ∈ cells a, row.sum = c.2 - c.1 := by
+  intro row hrow
+  unfold match1d dense at hrow
+  obtain ⟨i, _, hi, rfl⟩ := mem_tabFrom _ 0 _ row hrow
+  rw [Nat.zero_add] at hi
+  obtain ⟨c, hc⟩ : ∃ c, (cells a)[i]? = some c := ⟨(cells a)[i], List.getElem?_eq_getElem hi⟩
+  refine ⟨c, List.mem_of_getElem? hc, ?_⟩
+  rw [sum_row_dense]
+  · exact line_tess_rowsum ptol a b ha hb hs h0 hl i c hc
+  · intro t ht
+    exact (line_tess_indices ptol _ _ t ht).2
+
+/-- 2-D, decidable condition in place of the hypothesis of `match2d_avg_rows_one_of_rowsum`:
+    `rowsOk` is computed by the driver for every generated pair of triangulations. -/
+theorem match2d_avg_rows_one_of_check (ps qs : List Poly) (h : rowsOk ps qs = true) :
+    ∀ row ∈ match2d .averaged ps qs, row.sum = 1 := by
+  apply match2d_avg_rows_one_of_rowsum
+  intro i S hS
+  unfold rowsOk rowsOkFrom at h
+  rw [List.all_eq_true] at h
+  have hi : i < ps.length := (List.getElem?_eq_some_iff.mp hS).1
+  have := h i (List.mem_range.mpr hi)
+  have hg : ps.getD i [] = S := by rw [List.getD_eq_getElem?_getD, hS]; rfl
+  simp only [Bool.and_eq_true, decide_eq_true_eq] at this
+  rw [hg] at this
+  exact this
+
+theorem match2d_int_cols_one_of_check (ps qs : List Poly) (h : colsOk ps qs = true) :
+    ∀ j, j < qs.length → colSumDense (match2d .integrated ps qs) j = 1 := by
+  apply match2d_int_cols_one_of_colsum
+  intro j T hT
+  unfold colsOk colsOkFrom at h
+  rw [List.all_eq_true] at h
+  have hj : j < qs.length := (List.getElem?_eq_some_iff.mp hT).1
+  have := h j (List.mem_range.mpr hj)
+  have hg : qs.getD j [] = T := by rw [List.getD_eq_getElem?_getD, hT]; rfl
+  simp only [Bool.and_eq_true, decide_eq_true_eq] at this
+  rw [hg] at this
+  exact this
+
+/-- `match_2d` returns a matrix exactly when both grids are simplex grids in one plane and the scaling
+    is one of the three known ones; it is then the matrix of `match2d`. -/
+theorem match2d_entry_spec (sn so cp : Bool) (mode : Scaling) (ps qs : List Poly) (M : List (List Rat)) :
+    match2dEntry sn so cp mode ps qs = some M ↔
+      (sn = true ∧ so = true ∧ cp = true ∧ (∀ _h : mode = .other, False) ∧ M = match2d mode ps qs) := by
+  unfold match2dEntry
+  cases sn <;> cases so <;> cases cp <;> cases mode <;> simp [eq_comm]
+
+/-! non-vacuity -/
+
+example : hyp1d (1/100000000) [0, 1/2, 5/4, 2] [0, 1/4, 1/2, 2] = true := by decide +kernel
+
+/-- cells of `b` numbered backwards, first list = one cell of `a` between two arbitrary intervals -/
+example : rowSum (lineTess (1/100000000) [(7, 9), (1/2, 5/4), (0, 3)] [(1/2, 2), (1/4, 1/2), (0, 1/4)]) 1
+    = 5/4 - 1/2 := by decide +kernel
+
+example : match1d (1/100000000) .other (cells [0, 1/2, 5/4, 2]) (cells [0, 1/4, 1/2, 2])
+    = [[1/4, 1/4, 0], [0, 0, 3/4], [0, 0, 3/4]] := by decide +kernel
+
+example : rowsOk [triLL, triUR] [triLR, triUL] = true ∧ colsOk [triLL, triUR] [triLR, triUL] = true := by
+  decide +kernel
+
+/-- the condition fails when the second set does not cover the first -/
+example : rowsOk [triLL, triUR] [triLR] = false := by decide +kernel
+
+example : match2dEntry true true true .other [triLL] [triLR] = none
+    ∧ match2dEntry true false true .averaged [triLL] [triLR] = none
+    ∧ match2dEntry true true true .averaged [triLL] [triLR] = some [[1/2]] := by decide +kernel
+
 end PorepyVerif.C33
